@@ -399,3 +399,85 @@ Proof.
   { unfold to_process, files_of, drop_streamless. cbn [h_entries h_sizes]. apply to_process_drop. }
   rewrite T. reflexivity.
 Qed.
+
+(* ------------------------------------------------------------------ ZIP / TAR member loops *)
+Section LoopProofs.
+  Variables (skipn : str -> bool) (max_mem : Z) (REG : list N).
+
+  Lemma tar_reads_spec ms : forall k i,
+    In i (tar_reads skipn max_mem REG k ms) ->
+    (k <= i)%nat /\ exists m, nth_error ms (i - k) = Some m /\ tar_wanted skipn max_mem REG m = true.
+  Proof.
+    induction ms as [|m r IH]; intros k i; cbn [tar_reads]; [intros []|].
+    destruct (tar_wanted skipn max_mem REG m) eqn:W.
+    - intros [<-|H].
+      + split; [lia|]. exists m. replace (k - k)%nat with O by lia. auto.
+      + destruct (IH _ _ H) as [L [m' [N W']]]. split; [lia|]. exists m'.
+        replace (i - k)%nat with (S (i - S k)) by lia. auto.
+    - intro H. destruct (IH _ _ H) as [L [m' [N W']]]. split; [lia|]. exists m'.
+      replace (i - k)%nat with (S (i - S k)) by lia. auto.
+  Qed.
+
+  Lemma tar_read_rules ms i :
+    In i (tar_reads skipn max_mem REG 0 ms) ->
+    exists m, nth_error ms i = Some m /\ tar_isreg REG (a_type m) = true /\ skipn (a_name m) = false /\ a_size m <= max_mem.
+  Proof.
+    intro H. destruct (tar_reads_spec _ _ _ H) as [_ [m [N W]]]. rewrite Nat.sub_0_r in N.
+    exists m. unfold tar_wanted in W. rewrite !andb_true_iff, !negb_true_iff in W.
+    destruct W as [[A B] C]. repeat split; auto. lia.
+  Qed.
+
+  Lemma tar_special_never_read ms i m :
+    reg_types_wf REG = true -> nth_error ms i = Some m -> In (a_type m) TAR_SPECIAL ->
+    ~ In i (tar_reads skipn max_mem REG 0 ms).
+  Proof.
+    intros WF N Sp H. destruct (tar_read_rules _ _ H) as [m' [N' [R _]]].
+    rewrite N in N'. inversion N'; subst m'.
+    unfold reg_types_wf in WF. apply andb_true_iff in WF as [WF _]. rewrite forallb_forall in WF.
+    specialize (WF _ Sp). rewrite R in WF. discriminate.
+  Qed.
+
+  Lemma zip_scan_spec ms : forall k l i m,
+    zip_scan skipn k ms = Some l -> In (i, m) l ->
+    (k <= i)%nat /\ nth_error ms (i - k) = Some m /\ a_dir m = false /\ a_enc m = false /\ skipn (a_name m) = false.
+  Proof.
+    induction ms as [|x r IH]; intros k l i m; cbn [zip_scan].
+    - intro H; inversion H; subst. intros [].
+    - assert (Shift : forall l', zip_scan skipn (S k) r = Some l' -> In (i, m) l' ->
+                (k <= i)%nat /\ nth_error (x :: r) (i - k) = Some m /\ a_dir m = false /\ a_enc m = false /\ skipn (a_name m) = false).
+      { intros l' H1 H2. destruct (IH _ _ _ _ H1 H2) as [L [N R]]. split; [lia|].
+        replace (i - k)%nat with (S (i - S k)) by lia. auto. }
+      destruct (a_dir x) eqn:D; [intros H1 H2; exact (Shift _ H1 H2)|].
+      destruct (a_enc x) eqn:E; [discriminate|].
+      destruct (skipn (a_name x)) eqn:Sk; [intros H1 H2; exact (Shift _ H1 H2)|].
+      destruct (zip_scan skipn (S k) r) as [l'|] eqn:Z; [|discriminate].
+      intro H; inversion H; subst l. intros [Q|Q].
+      + inversion Q; subst. split; [lia|]. replace (i - i)%nat with O by lia. auto.
+      + exact (Shift _ eq_refl Q).
+  Qed.
+
+  Lemma zip_read_rules ms l i :
+    zip_reads skipn max_mem ms = Some l -> In i l ->
+    exists m, nth_error ms i = Some m /\ a_dir m = false /\ a_enc m = false /\ skipn (a_name m) = false /\ a_size m <= max_mem.
+  Proof.
+    unfold zip_reads. destruct (zip_scan skipn 0 ms) as [l0|] eqn:Z; [|discriminate].
+    intro H; inversion H; subst l. intro I. apply in_map_iff in I as [[j m] [Ej F]]. cbn [fst] in Ej. subst j.
+    apply filter_In in F as [F1 F2]. cbn [snd] in F2. apply negb_true_iff in F2.
+    destruct (zip_scan_spec _ _ _ _ _ Z F1) as [_ [N R]]. rewrite Nat.sub_0_r in N.
+    destruct R as [R1 [R2 R3]]. exists m. repeat split; auto. lia.
+  Qed.
+
+  Lemma zip_scan_encrypted ms : forall k i m,
+    nth_error ms i = Some m -> a_dir m = false -> a_enc m = true -> zip_scan skipn k ms = None.
+  Proof.
+    induction ms as [|x r IH]; intros k i m N D E; [destruct i; discriminate|].
+    cbn [zip_scan]. destruct i as [|i].
+    - inversion N; subst x. rewrite D, E. reflexivity.
+    - cbn [nth_error] in N. rewrite (IH (S k) _ _ N D E).
+      destruct (a_dir x); [reflexivity|]. destruct (a_enc x); [reflexivity|]. destruct (skipn (a_name x)); reflexivity.
+  Qed.
+
+  Lemma zip_encrypted_nothing_read ms i m :
+    nth_error ms i = Some m -> a_dir m = false -> a_enc m = true -> zip_reads skipn max_mem ms = None.
+  Proof. intros N D E. unfold zip_reads. rewrite (zip_scan_encrypted _ _ _ _ N D E). reflexivity. Qed.
+End LoopProofs.
